@@ -14,14 +14,28 @@ def handler(pid):
     return deco
 
 
+def prepare_vtime(ctx):
+    """scratch copy with `time` redirected to the virtual clock shim; harness built with the drivers that use it"""
+    ctx.setup(need_harness=False)
+    ctx.apply_shims(only="time")
+    ctx.build_harness(tags="vshim")
+
+
+PREPARE = {"C08": prepare_vtime}
+
+
 def seq_container(ctx, driver, trace_module, model_checks, depth, shards=8, extra_args=(), kf_controls=(),
-                  variant_of=None):
+                  variant_of=None, prepare=None, procs=False):
     """Sequential containers (DESIGN section 7, common part):
        1. TLC model check of the property-level spec against its declarative restatement;
        2. directed probe of every open known finding;
        3. binding B: operation tree + long seeded runs recorded on the real code,
           validated by TLC against the same Out/ProjOK."""
-    ctx.setup()
+    if prepare:
+        ctx.prepare = prepare
+        prepare(ctx)
+    else:
+        ctx.setup()
     opn, _ = vlib.known_findings(ctx.prop)
     for m, c in model_checks:
         ctx.model_check(m, c)
@@ -30,7 +44,10 @@ def seq_container(ctx, driver, trace_module, model_checks, depth, shards=8, extr
     vlib.probe_known_findings(ctx, trace_module, opn)
     out = os.path.join(ctx.scratch, "t", driver)
     d = depth[ctx.tier]
-    summ = ctx.drive(driver, ["-out", out, "-depth", d, "-shards", shards] + list(extra_args))
+    if procs:
+        summ = ctx.drive_procs(driver, ["-out", out, "-depth", d] + list(extra_args), shards)
+    else:
+        summ = ctx.drive(driver, ["-out", out, "-depth", d, "-shards", shards] + list(extra_args))
     if summ["nodes"] < 10:
         raise Infra("driver %s recorded only %d nodes" % (driver, summ["nodes"]))
     ctx.samples = [vlib.json.loads(s) if isinstance(s, str) else s for s in summ["samples"]]
@@ -162,3 +179,9 @@ def c18(ctx):
 def c16(ctx):
     return seq_container(ctx, "frame", "FrameTrace", [("FrameMC", "FrameMC.cfg")],
                          depth=dict(quick=2, thorough=3), shards=12)
+
+
+@handler("C08")
+def c08(ctx):
+    return seq_container(ctx, "expcache", "ExpCacheTrace", [("ExpCacheMC", "ExpCacheMC.cfg")],
+                         depth=dict(quick=3, thorough=4), shards=12, prepare=prepare_vtime, procs=True)
